@@ -232,3 +232,26 @@ func (x *xfer) wait() error {
 	<-x.done
 	return x.err // after done
 }
+
+// a value handed out by a shared container is one backing store for every goroutine that gets it
+var capCache sync.Map
+
+func cachedCaps(k string) []int {
+	if v, ok := capCache.Load(k); ok {
+		return v.([]int)
+	}
+	c := make([]int, 0, 4)
+	c = append(c, 1) // still private
+	capCache.Store(k, c)
+	return c
+}
+
+func useCaps(k string) []int {
+	c := cachedCaps(k)
+	c = append(c, 2) // writes into the cached backing array
+	d := append([]int{}, cachedCaps(k)...)
+	d = append(d, 3) // a copy: fine
+	d[0] = 4         // fine
+	c[0] = 5         // element assignment through the alias
+	return d
+}
